@@ -33,6 +33,8 @@ type Case struct {
 	Allow  bool          `json:"allow"`
 	// Reuse: the loader has already loaded another root document (first.json, next to the root)
 	Reuse bool `json:"reuse,omitempty"`
+	// ReuseFail: that earlier load failed (first.json has an internal reference to nothing)
+	ReuseFail bool `json:"reuse_fail,omitempty"`
 	// Hosts (entry "multi-host"): two documents with the same path at locations that differ in one URL
 	// component; each one's relative references belong to its own location
 	Hosts *Hosts `json:"hosts,omitempty"`
@@ -249,8 +251,18 @@ func check(c Case) (o h.Outcome) {
 	if c.Reuse && c.Layout == nil {
 		first := path.Join(path.Dir(path.Clean(c.Root)), "first.json")
 		fs.Files[first] = []byte(decoy)
-		if !o.Guarded("Load/first", func() { _, _ = ld.LoadFromFile(first) }) {
+		if c.ReuseFail {
+			fs.Files[first] = []byte(strings.Replace(decoy, `"schemas":{"A":{"type":"string"}}`, `"schemas":{"A":{"type":"string"},"B":{"$ref":"#/components/schemas/Nope"}}`, 1))
+		}
+		var ferr error
+		if !o.Guarded("Load/first", func() { _, ferr = ld.LoadFromFile(first) }) {
 			return
+		}
+		if c.ReuseFail {
+			if ferr == nil {
+				panic("harness: the first document was meant to fail")
+			}
+			o.Class("off:reused-loader-after-failed-load")
 		}
 		delete(fs.Files, first)
 		fs.Log = nil
@@ -453,6 +465,13 @@ func enumerate(shard, nshards int, yield func(Case)) {
 						}
 						yield(Case{Doc: doc, Form: form, PosKind: posName(n), Root: root, Entry: e, Allow: false, Reuse: reuse})
 					}
+					if idx%5 == 0 {
+						// the loader has a failed load behind it
+						idx++
+						if idx%nshards == shard {
+							yield(Case{Doc: doc, Form: form, PosKind: posName(n), Root: root, Entry: e, Allow: false, Reuse: true, ReuseFail: true})
+						}
+					}
 				}
 			}
 		}
@@ -471,6 +490,7 @@ func gen(t *rapid.T) Case {
 	raw := docgen.Conforming(t, docgen.Cfg{Unusual: rapid.Bool().Draw(t, "unusual"), Examples: true, MaxPaths: 2})
 	pos := positions(raw)
 	c := Case{Root: rapid.SampledFrom(roots).Draw(t, "root"), Entry: rapid.SampledFrom(entries).Draw(t, "entry"), Reuse: rapid.IntRange(0, 3).Draw(t, "reuse") == 0}
+	c.ReuseFail = c.Reuse && rapid.Bool().Draw(t, "reusefail")
 	n := rapid.IntRange(1, 3).Draw(t, "nplant")
 	d := jv.Clone(raw).(M)
 	for i := 0; i < n && len(pos) > 0; i++ {
